@@ -290,9 +290,15 @@ Fixpoint zparts_eqb (a b : list (list Z)) : bool :=
   | x :: a', y :: b' => zlist_eqb x y && zparts_eqb a' b'
   | _, _ => false
   end.
+(* CSV: `slice` counts in unary; hand-built ranges may reach 2^40, so both ends are clamped to the
+   number of rows first -- Proofs/ExecProofs.v slice_clamp: this does not change the slice *)
+Definition clampr (len : N) (r : range) : range := (N.min (fst r) len, N.min (snd r) len).
 Definition hand_adapter (fmt : Z) (ids : list Z) (rg : Z) (rs : list range) (tot : N) : adapter Z :=
   if fmt =? 0 then jsonl_adapter tok_de (lines (write_all tok_ser ids)) rs tot
-  else if fmt =? 1 then rows_adapter ids rs tot
+  else if fmt =? 1 then
+    mk_adapter (Some tot)
+               (ad_split (rows_adapter ids (map (clampr (nlen ids)) rs) tot))
+               (ad_clone (rows_adapter ids [] (N.min tot (nlen ids))))
   else pq_adapter (pq_groups ids rg) rs tot.
 (* number of shardable units of a file: lines / rows / row groups *)
 Definition fmt_units (fmt : Z) (ids : list Z) (rg : Z) : N :=
